@@ -306,6 +306,9 @@ class Session:
         tup = [tuple(py(v) for v in r) for r in rows]
         n = len(tup)
         how = form.get("how", "array")
+        if how == "matrix":
+            # a plain 2-D array (all fields of one type): its rows are sequences of NumPy scalars
+            return np.array(tup, dtype=np.dtype(np_type(fields[0][1], 0))).reshape((n, k))
         if how == "frame":
             self.nsrc += 1
             if form.get("read") == "columns" and k > 1:
@@ -688,6 +691,13 @@ def gen_form(rng, rows, tgt_names, tgt_types, stats=None, struct=False):
         if ft is None:
             return None
         ftypes.append(ft)
+    if not struct and len(set(ftypes)) == 1 and ftypes[0] != "text" and rng.random() < 0.5:
+        # all fields of one numeric type: also as a plain 2-D array
+        kinds = {c[0] for r in rows for c in r}
+        if len(kinds) <= 1:
+            if stats is not None:
+                stats["form.matrix"] = stats.get("form.matrix", 0) + 1
+            return {"how": "matrix", "rec": [["f%d" % j, ftypes[0]] for j in range(k)]}
     form = gen_layout(rng, k, stats)
     if not struct:
         names, mode = field_names(rng, list(tgt_names), k)
@@ -1410,7 +1420,7 @@ def oracle_history(ctx, k, rng, nops, fixed=None):
                 create = with_form(create, gen_form(rng, rows, names, types, struct=True) if rng.random() < 0.8 else None)
             elif as_rec:
                 form = gen_form(rng, data, names, types)
-                if form is not None and variant == "names_data":
+                if form is not None and variant == "names_data" and form.get("how") != "matrix":
                     # the derived column types are the field types
                     form["rec"] = [[fl[0], t] for fl, t in zip(form["rec"], types)]
                 create = with_form(create, form)
@@ -1504,7 +1514,8 @@ def describe_form(form):
     if not form:
         return ""
     how = {"array": "a NumPy structured array", "view": "a multi-field view table[[...]] of a structured array",
-           "voids": "a list of np.void records", "frame": "the structured array read from another data frame"}[
+           "voids": "a list of np.void records", "frame": "the structured array read from another data frame",
+           "matrix": "a plain 2-D NumPy array"}[
         form.get("how", "array")]
     extra = []
     if form.get("how") == "frame":
@@ -1769,6 +1780,22 @@ FIXED_CASES = [
 ]
 
 
+def _big_case():
+    """a table that grows past a few hundred rows (chunk boundaries of the dataset): appended in bulk, addressed at
+    its first / last / boundary rows, widened by a column, reopened"""
+    def row(i):
+        return [["i", i], ["s", "r%d" % i + ("\u00e9" if i % 7 == 0 else "")], enc_float((i * 3 - 100) / 4), ["b", i % 3 == 0]]
+    cols = [["n", "i32"], ["label", "text"], ["x", "f64"], ["ok", "bool"]]
+    return [["create_dict", cols, [row(i) for i in range(130)]],
+            _acc(["append_rows", [row(i) for i in range(130, 300)]]),
+            _acc(["write_rows", [row(1000), row(1001), row(1002), row(1003)], [0, 255, 256, -1]]),
+            _acc(["append_rows", [row(i) for i in range(300, 530)],
+                  {"how": "frame", "read": "all", "rec": [["label", "i32"], ["n", "text"], ["x", "f64"], ["flag", "bool"]]}]),
+            _acc(["append_column", [["i", i % 256] for i in range(530)], "k", "u8"]),
+            _acc(["write_cell_pos", ["i", 255], [-1, -1]]), _acc(["write_cell_name", ["s", "mid"], "label", 256]),
+            _acc(["reopen"]), _acc(["append_rows", [row(9)[:4] + [["i", 7]]]])]
+
+
 def extra_fixed_checks(ctx):
     """block-level cases outside the single-frame protocol"""
     nix, np = _nix()
@@ -1822,7 +1849,7 @@ def oracle(ctx, broken, hints):
     failures = []
     evals = 0
     k = 100000
-    for case in FIXED_CASES:
+    for case in FIXED_CASES + [_big_case()]:
         e, f = oracle_history(ctx, k, rng, 0, fixed=case)
         k += 1
         evals += e
